@@ -8,7 +8,7 @@ git -C /repo worktree add -q --detach "$WT" HEAD || exit 3
 cleanup() { git -C /repo worktree remove --force "$WT" >/dev/null 2>&1; rm -rf "$WT"; }
 trap cleanup EXIT
 mkdir -p "$WT/seed_out"; cp -r "$SRC/demo$N" "$WT/seed_out/demo$N"
-RUN=$(grep -v '^\s*$' "$SRC/demo$N/RUN.txt" | grep -v '^#' | tail -1)
+RUN=$(grep -v '^\s*$' "$SRC/demo$N/RUN.txt" | grep -v '^#' | tail -1 | sed -E 's#cd /tmp/seed/[A-Z0-9]+ *(&&|;) *##')
 cd "$WT"
 echo "RUN: $RUN"
 ( eval "$RUN" ) >"$WT/clean.log" 2>&1; rc_clean=$?
